@@ -109,16 +109,26 @@ def gen(rnd, family):
         else:
             add("sink", [(cur, 1)])
     elif family == "bg_slow":
-        # a slow pass-through keeps a pass of the runner open for milliseconds while another
-        # graph runs in the process (always with "bg")
+        # another graph runs in the process (always with "bg") and an idle side chain with a slow
+        # block (fed by an empty source) keeps every pass of the runner open for milliseconds after
+        # the main chain has moved its data
         cap = rnd.choice([1, 2, 3])
         sb = cap * 4096
         n = rnd.choice([1, cap, cap + 1, 2 * cap + 1])
-        cur = add("src_big", data=list(range(1, n + 1)))
+        src = add("src_big", data=list(range(1, n + 1)))
+        cur = src
         if rnd.random() < 0.5:
             cur = add("addconst", [(cur, 1)], val=7)
-        cur = add("slow", [(cur, 1)], ms=rnd.choice([2, 3, 4]))
-        add("sink", [(cur, 1)])
+        sink = add("sink", [(cur, 1)])
+        e = add("src_big", data=[])
+        sl = add("slow", [(e, 1)], ms=rnd.choice([2, 3, 4]))
+        sink2 = add("sink", [(sl, 1)])
+        main = list(range(src, sink + 1))
+        if rnd.random() < 0.7:
+            main = [sink] + main[:-1]            # sink first: the source's last commit ends a pass
+        elif rnd.random() < 0.5:
+            rnd.shuffle(main)
+        return {"nodes": nodes, "order": main + [e, sink2, sl], "stream_bytes": sb, "family": family}
     else:   # bits: nrzi / descrambler chain
         n = rnd.choice([0, 1, 17, 100, 5000])
         cur = add("src_u8", data=[rnd.randint(0, 1) for _ in range(n)])
@@ -128,8 +138,6 @@ def gen(rnd, family):
         add("sink", [(cur, 1)])
     order = list(range(1, len(nodes) + 1))
     rnd.shuffle(order)
-    if family == "bg_slow" and rnd.random() < 0.7:
-        order = [len(nodes)] + [1] + list(range(2, len(nodes)))       # sink first, then source, then the rest
     return {"nodes": nodes, "order": order, "stream_bytes": sb, "family": family}
 
 
